@@ -401,20 +401,24 @@ def run(ck: common.Check):
                "non-trivial = at least one node or one property; distinct = distinct canonical case JSON")
     cases = [c for c in R.corpus(PROP)]
     base = exhaustive(ck.quick) + special_cases()
-    nrand = 700 if ck.quick else 12000
-    nmal = 150 if ck.quick else 1500
+    nrand = 700 if ck.quick else 4000
+    nmal = 150 if ck.quick else 600
     base += [random_case(ck.rng, ck.quick) for _ in range(nrand)]
     base += [malformed_case(ck.rng) for _ in range(nmal)]
     kinds = ["local", "path", "str"]
     for i, c in enumerate(base):
         for fmt in (2, 3):
             cases.append({**c, "fmt": fmt, "store": "mem"})
-        if not ck.quick or i % 10 == 0:
-            for j, kind in enumerate(kinds):
-                if not ck.quick or (i // 10 + j) % 3 == 0:
-                    cases.append({**c, "fmt": 2 + (i + j) % 2 if ck.quick else 2, "store": kind})
-                    if not ck.quick:
-                        cases.append({**c, "fmt": 3, "store": kind})
+        # the other store kinds: quick = one kind x one format on every 10th graph; thorough = all three kinds x both
+        # formats on every 4th graph
+        if ck.quick:
+            if i % 10 == 0:
+                j = (i // 10) % 3
+                cases.append({**c, "fmt": 2 + (i // 30) % 2, "store": kinds[j]})
+        elif i % 4 == 0:
+            for kind in kinds:
+                for fmt in (2, 3):
+                    cases.append({**c, "fmt": fmt, "store": kind})
     ck.extra["cases_by_store"] = {k: sum(1 for c in cases if c.get("store", "mem") == k) for k in ["mem", *kinds]}
 
     obs_all = common.pmap(impl_run, cases, chunksize=8)
